@@ -22,12 +22,10 @@ use uuid::Uuid;
 
 use crate::request::{Command, encode_event, number, simple_str};
 
-/// The byte stream of a client connection: a TCP stream, or, under simulation, one end of an
-/// in-memory duplex pipe whose other end the simulator holds.
-#[cfg(not(feature = "verif"))]
-pub type ConnStream = TcpStream;
+/// Under simulation the byte stream of a client connection is one end of an in-memory duplex
+/// pipe whose other end the simulator holds.
 #[cfg(feature = "verif")]
-pub type ConnStream = tokio::io::DuplexStream;
+use tokio::io::DuplexStream as TcpStream;
 
 pub struct Server {
     cluster_ref: ActorRef<ClusterActor>,
@@ -61,7 +59,7 @@ impl Server {
 
     /// Serves one simulated client connection (the simulator holds the other end of the pipe).
     #[cfg(feature = "verif")]
-    pub async fn verif_serve(&self, stream: ConnStream) -> io::Result<()> {
+    pub async fn verif_serve(&self, stream: TcpStream) -> io::Result<()> {
         Conn::new(
             self.cluster_ref.clone(),
             self.caches.clone(),
@@ -125,7 +123,7 @@ pub struct Conn {
     pub num_partitions: u16,
     pub cache_capacity_bytes: usize,
     pub strict_versioning: bool,
-    pub stream: ConnStream,
+    pub stream: TcpStream,
     pub shutdown: CancellationToken,
     pub read: BytesMut,
     pub write: BytesMut,
@@ -143,7 +141,7 @@ impl Conn {
         num_partitions: u16,
         cache_capacity_bytes: usize,
         strict_versioning: bool,
-        stream: ConnStream,
+        stream: TcpStream,
         shutdown: CancellationToken,
     ) -> Self {
         let read = BytesMut::new();
